@@ -1,16 +1,20 @@
 """C01 — the interpreter returns the denotation of the program.
 
-Lean: model of interpreter<i_mep> / src_interpreter (memo keyed by locus, ip save/restore, invalidation
-per run, exceptions) and proofs `interp_eq_denote`, `run_history_indep`, `denote_eq_tree`,
-`intron_indep`, `needs_only_asked`, `in_bounds` … for every well-formed genome, example and initial
-interpreter state (Vita/C01/Props.lean).  Primitive bodies: generated (C13/C14 translators) + a few
-hand-written terminals.
+Lean: the member functions of interpreter<i_mep> / core_interpreter / symbol_params / src_interpreter<i_mep>,
+symbol::penalty, comparison_function_penalty and gene::locus_of_argument are EXTRACTED from the current
+sources (tools/translate_interp.py -> Vita/C01/GenInterp.lean, a small statement language with one semantics,
+Vita/C01/Lang.lean); Vita/C01/Bridge.lean proves the interpreter made of the extracted bodies equal to the
+hand-written model, and Vita/C01/Props.lean proves `gen_interp_eq_denote`, `gen_run_history_indep`,
+`gen_layout_indep`, `gen_intron_indep`, `gen_in_bounds`, `team_members_eq_denote`, `penalty_spec` … for every
+well-formed genome, example and state of the object.  Primitive bodies: all generated (C13 / C14 translators,
+tools/translate_prims01.py for bool.h, int.h `number`, variable.h, constant.h).
 
-Tie: differential.  The harness builds real individuals with vita's own constructor / mutation /
-crossover / get_block over five symbol sets, runs vita's interpreters (fresh, one object reused
-over a sequence of examples, no example, regression lambda) and its own independent recursive tree
-evaluation; the compiled Lean driver runs the model interpreter (with the same object history, plus
-model-only `stale` states) and `denote` on the serialised programs.  All answers must agree bit for bit.
+Tie: translators + differential.  The harness builds real individuals with vita's own constructor / mutation /
+crossover / get_block / teams over five symbol sets plus engineered layouts, introns, program swaps behind a
+live object, penalty collisions, long reuse and wide examples; runs vita's interpreters (fresh, one object
+reused, no example, regression lambda, team lambda, penalty()) and its own independent recursive tree
+evaluation; the compiled Lean driver runs the EXTRACTED interpreter (same object history, plus model-only `stale`
+states) and `denote`.  All answers must agree bit for bit.
 """
 import concurrent.futures as cf
 import hashlib
@@ -25,6 +29,7 @@ sys.path.insert(0, os.path.join(C.ROOT, "tools"))
 import translate_real  # noqa: E402
 import translate_int  # noqa: E402
 import translate_interp  # noqa: E402
+import translate_prims01  # noqa: E402
 from cxx2lean import Refuse  # noqa: E402
 
 SETS = ["real", "int", "str2", "typed3", "illtyped"]
@@ -116,6 +121,12 @@ def run(chk, replay=None):
         chk.cov["gen_changed_vs_committed"] = bool(ch or ch2)
     except Refuse as e:
         broken.append("a translator refuses the current primitive sources: %s" % e)
+    try:
+        pnames, ch4 = translate_prims01.emit(os.path.join(C.LEAN, "Vita", "C01", "GenPrims.lean"))
+        chk.cov["translated_terminals_boolean"] = pnames
+        chk.cov["genprims_changed_vs_committed"] = bool(ch4)
+    except Refuse as e:
+        broken.append("tools/translate_prims01.py refuses the current bool.h / int.h number / variable.h / constant.h: %s" % e)
     # ---- the member functions of the interpreters -> statement language (GenInterp.lean) ------------
     try:
         res, ch3 = translate_interp.emit(os.path.join(C.LEAN, "Vita", "C01", "GenInterp.lean"),
@@ -349,11 +360,19 @@ def run(chk, replay=None):
         checker_cmd="lake build Vita.C01.Props && lake env lean <#print axioms for every theorem>",
         rule="programs: vita's random constructor over 5 symbol sets (real / integer / real+string / 3 strongly typed "
              "categories / ill-typed), 2..64 rows, patch 1..6, followed by mutation, crossover, get_block; hand-built "
-             "maximal-sharing chains; each run fresh, on one reused src_interpreter (forwards and backwards), without "
-             "example and through reg_lambda_f, examples from boundary tables; evaluations = interpreter runs, distinct = "
-             "distinct (program, mode, example) whose expression tree has more than one node; every run is compared with the harness' memo-free recursive tree "
-             "evaluation, with the Lean model interpreter driven through the same object history (and from model-only "
-             "stale states) and with `denote`",
-        trusted=["Lean 4.33 kernel", "hand-written model Vita/C01/Model.lean of interpreter.cc / interpreter.tcc",
-                 "tools/translate_real.py, translate_int.py (primitive bodies), Vita/C01/Prims.lean (progOfE, terminals)",
-                 "differential harness harness/c01_interp.cc, g++ 12 ASan/UBSan"])
+             "maximal-sharing chains; long reuse of one object (gaps 2^k±1); 70000-feature examples; engineered: the same tree "
+             "in another layout (genes duplicated / shared at random), the same active code with other introns, other programs "
+             "assigned behind one live src_interpreter, comparison functions with colliding argument indices built directly and "
+             "over storage of another arity, teams of 1..5 members through reg_lambda_f<team>; each run fresh, on one reused "
+             "src_interpreter (forwards, penalty(), backwards), without example and through reg_lambda_f, examples from boundary "
+             "tables; evaluations = interpreter runs + penalty() calls + equal-pair comparisons, distinct = distinct (program, "
+             "operation, object kind, example) whose expression tree has more than one node; every run is compared with the "
+             "harness' memo-free recursive tree evaluation (penalty: the documented rule on the gene's own arguments), with the "
+             "interpreter EXTRACTED from the sources executed by the Lean semantics through the same object history (and from "
+             "model-only stale states) and with `denote`",
+        trusted=["Lean 4.33 kernel", "semantics of the statement language Vita/C01/Lang.lean and the dispatch / recursion wiring "
+                 "Vita/C01/ModelG.lean (the hand-written model Vita/C01/Model.lean is proved equal to the extracted interpreter, "
+                 "not trusted)",
+                 "tools/translate_interp.py, translate_prims01.py, translate_real.py, translate_int.py (syntax-only translators), "
+                 "Vita/C01/Prims.lean (progOfE)",
+                 "differential harness harness/c01_interp.cc and its oracles, g++ 12 ASan/UBSan"])
